@@ -189,6 +189,49 @@ impl State {
 //@end
 }
 
+// ---- C10.2: `State::get_or_compute_derivative` (feos-core/src/state/properties.rs): Residual -> the
+// residual dispatcher, IdealGas -> the matching dual component of the ideal-gas evaluation on the
+// state seeded in the same direction, Total -> their sum.  f64 `+` is the uninterpreted f_add (N16).
+//@item feos-core/src/state/mod.rs enum Contributions
+/// what the ideal-gas part of a key denotes for this state
+pub uninterp spec fn truth_ig(k: PartialDerivative) -> f64;
+pub open spec fn tvi(k: PartialDerivative) -> f64 { truth_ig(canon(k)) }
+pub uninterp spec fn f_add(a: f64, b: f64) -> f64;
+#[verifier::external_body]
+pub fn f_add_exec(a: f64, b: f64) -> (r: f64) ensures r == f_add(a, b) { a + b }
+/// A1 for the ideal-gas model: evaluating beta*A^ig*T on a seeded state
+pub trait SeededIg: Sized { type D; spec fn ig_ok(self, d: Self::D) -> bool; }
+impl SeededIg for S0 { type D = f64; open spec fn ig_ok(self, d: f64) -> bool { d == tvi(PartialDerivative::Zeroth) } }
+impl SeededIg for S1 { type D = Dual64; open spec fn ig_ok(self, d: Dual64) -> bool { d.eps == tvi(PartialDerivative::First(seed_1(self))) } }
+impl SeededIg for S2 { type D = Dual2_64; open spec fn ig_ok(self, d: Dual2_64) -> bool { d.v2 == tvi(PartialDerivative::Second(seed_2(self))) } }
+impl SeededIg for SM { type D = HyperDual64; open spec fn ig_ok(self, d: HyperDual64) -> bool {
+    d.eps1eps2 == tvi(PartialDerivative::SecondMixed(seed_m1(self), seed_m2(self))) } }
+impl SeededIg for S3 { type D = Dual3_64; open spec fn ig_ok(self, d: Dual3_64) -> bool { d.v3 == tvi(PartialDerivative::Third(seed_3(self))) } }
+#[verifier::external_body]
+pub fn ig_times_t<S: SeededIg>(st: &State, s: &S) -> (r: S::D) ensures s.ig_ok(r) { unimplemented!() }   // A1
+impl State {
+//@fn feos-core/src/state/properties.rs State::get_or_compute_derivative ret=r
+    requires
+        km(), inv(old(cache).map@), old(cache).hit < u64::MAX, old(cache).miss < u64::MAX,
+    ensures
+        // from the statement: total = ideal gas + residual, each part the derivative the key denotes
+        r == (match contributions {
+            Contributions::IdealGas => tvi(derivative),
+            Contributions::Residual => tv(derivative),
+            Contributions::Total => f_add(tvi(derivative), tv(derivative)),
+        }),
+        inv(final(cache).map@), kept(old(cache).map@, final(cache).map@),
+//@addparam cache: &mut Cache
+//@rewrite N5 expr self.get_or_compute_derivative_residual(derivative) => self.get_or_compute_derivative_residual(derivative, cache)
+//@rewrite N7 expr self.eos.ideal_gas_helmholtz_energy(&$S) * $S.temperature => ig_times_t(self, &$S)
+//@rewrite? N16 expr i + r => f_add_exec(i, r)
+//@rewrite? N14 expr unreachable!() => vx_unreachable()
+//@prologue broadcast use ord_total;
+//@end
+}
+#[verifier::external_body]
+pub fn vx_unreachable() -> (r: f64) requires false { unreachable!() }
+
 // ---- C11.7: history independence.  The transition system whose steps are the five
 // post-conditions above: from any map satisfying `inv`, along an arbitrary finite request
 // sequence, every answer equals tv(key) and `inv` is maintained.
